@@ -6,6 +6,17 @@ quantifiers of the property; `closedB` is the decision procedure run on EVERY re
 compiler output by the driver; `closedB_iff` says the procedure is the statement.
 `closed_exits_resolve` / `closed_choice_defined` connect closure to the transition system:
 in a closed flow no path ends because of a structural fault.
+
+The compiler model (`Rpft/Compile.lean`, an arena state machine driven by the parser's events,
+tied to the real `FlowParser` by exact comparison of outputs) is proved closed BY CONSTRUCTION,
+for ALL event sequences (unbounded; rows, nested groups, inserted blocks), by invariants of the
+machine's execution (`Lemmas/CompileWp`, `CompileInvA*`, `CompileInvB*`, `CompileEmit`,
+`CompileFinal*`):
+* `compile_cases_resolve`  — every case names a category of its own router   (no hypothesis)
+* `compile_dests_resolve`  — every destination is a node of the EMITTED flow   (no hypothesis)
+* `compile_closed`         — `Closed (renderOut out)`, the full C01 statement, under `NoGivenIds`
+  (no `_nodeId` given in the sheet; `needs_no_given_ids` shows the hypothesis is needed: it is
+  the known finding F-C01-a of the real code).
 -/
 import Rpft.Flow
 import Rpft.Lemmas.Compile
@@ -115,13 +126,12 @@ theorem case_categories_stable (r : Compile.SwitchR) (f : Compile.Cat → Compil
     (hf : ∀ c, (f c).uid = c.uid) (h : Compile.CaseCatsOk r) : Compile.CaseCatsOk (r.mapCats f) :=
   Compile.caseCatsOk_mapCats r f hf h
 
-/-- **Closure by construction** (partial `compile_closed`): whatever the compiler machine did,
-every node it renders has its categories and exits in one-to-one positional correspondence
-(category k owns exit k), its default category — and with a timeout its no-response category —
-among its categories, and exactly one exit when it has no router.  These are the clauses of
-C01 that hold by the shape of the data; uniqueness of identifiers, destinations inside the
-flow and case → category are invariants of the machine's execution (not proved; decided per
-output by `closedB`). -/
+/-- **Closure by the shape of the data**: whatever the compiler machine did, every node it
+renders has its categories and exits in one-to-one positional correspondence (category k owns
+exit k), its default category — and with a timeout its no-response category — among its
+categories, and exactly one exit when it has no router.  The remaining clauses of C01
+(uniqueness of identifiers, destinations inside the flow, case → category) are invariants of the
+machine's execution: `compile_cases_resolve`, `compile_dests_resolve`, `compile_closed` below. -/
 theorem rendered_node_shape (n : Compile.NodeM) :
     let m := Compile.renderNode n
     (∀ r, m.router = some r → r.cats.map (·.exitUuid) = m.exits.map (·.uuid)) ∧
@@ -276,7 +286,82 @@ theorem compile_closed (noArgs testTypes : List Str) (evs : List Compile.Event) 
       · intro e he; rw [hex]; exact List.mem_map_of_mem he
       · exact compile_cases_resolve noArgs testTypes evs out h _ hn r hr
 
-/-! ### non-vacuity and negative witnesses -/
+/-! ### non-vacuity of `compile_closed` and the negative witness for its hypothesis -/
+
+def blankCond : Compile.Cond := { value := [], var := [], type := [], name := [] }
+
+def edgeFrom (f : String) (v : String := "") : Compile.Edge :=
+  { from_ := f.toList, cond := { blankCond with value := v.toList } }
+
+def mkRow (id type : String) (edges : List Compile.Edge) (action : Option String := none)
+    (dests : List String := []) (nodeUuid : String := "") : Compile.Row :=
+  { rowId := id.toList, type := type.toList, edges := edges, action := action.map String.toList,
+    actionOk := true, ownAction := none, nodeUuid := nodeUuid.toList, nodeName := [], saveName := [],
+    noResponse := [], expression := [], flowName := [], dests := dests.map String.toList,
+    resultKey := none, nodeOk := true }
+
+/-- a message, a router (`wait_for_response` with two conditional edges), a block entered on one
+answer, and a `go_to` from the block back to the first row -/
+def exEvents : List Compile.Event :=
+  [ .row (mkRow "1" "send_message" [edgeFrom ""] (some "hello")),
+    .row (mkRow "2" "wait_for_response" [edgeFrom ""]),
+    .openGroup [edgeFrom "2" "yes"] false,
+    .row (mkRow "3" "send_message" [edgeFrom ""] (some "in block")),
+    .closeGroup "b".toList,
+    .row (mkRow "4" "go_to" [edgeFrom "b"] none ["1"]),
+    .row (mkRow "5" "send_message" [edgeFrom "2" "no"] (some "bye")) ]
+
+/-- finding F-C01-a: an action row and a following router row give the same `_nodeId` -/
+def badEvents : List Compile.Event :=
+  [ .row (mkRow "1" "send_message" [edgeFrom ""] (some "hello") [] "X"),
+    .row (mkRow "2" "wait_for_response" [edgeFrom "1"] none [] "X") ]
+
+def exTests : List Str := ["has_any_word".toList]
+
+/-- `some true` / `some false`: compiles, and the output is / is not closed; `none`: error -/
+def outcome (noArgs testTypes : List Str) (evs : List Compile.Event) : Option Bool :=
+  match Compile.compile noArgs testTypes evs with
+  | .ok out => some (decide (Closed (Compile.renderOut out)))
+  | .error _ => none
+
+theorem outcome_some {noArgs testTypes : List Str} {evs : List Compile.Event} {b : Bool}
+    (h : outcome noArgs testTypes evs = some b) :
+    ∃ out, Compile.compile noArgs testTypes evs = .ok out ∧ (Closed (Compile.renderOut out) ↔ b = true) := by
+  unfold outcome at h
+  split at h
+  · rename_i out ho
+    injection h with h
+    exact ⟨out, ho, by rw [← h]; simp⟩
+  · cases h
+
+/-- non-vacuity of `compile_closed`: a sheet with a router, a block and a `go_to` satisfies the
+hypotheses (no given identifiers, compiles: four nodes, one of them a router) — and, as the
+theorem says, its output is closed -/
+example : NoGivenIds exEvents ∧
+    ∃ out, Compile.compile [] exTests exEvents = .ok out ∧ Closed (Compile.renderOut out) ∧
+      out.nodes.length = 4 ∧ (out.nodes.filter (·.router.isSome)).length = 1 := by
+  refine ⟨by decide +kernel, ?_⟩
+  have h : outcome [] exTests exEvents = some true := by decide +kernel
+  obtain ⟨out, ho, hc⟩ := outcome_some h
+  refine ⟨out, ho, hc.mpr rfl, ?_⟩
+  have h2 : (match Compile.compile [] exTests exEvents with
+      | .ok out => decide (out.nodes.length = 4 ∧ (out.nodes.filter (·.router.isSome)).length = 1)
+      | .error _ => false) = true := by decide +kernel
+  rw [ho] at h2
+  simpa using h2
+
+/-- the hypothesis of `compile_closed` is needed (finding F-C01-a of the real code, reproduced by
+the model): the same `_nodeId` on an action row and a following router row compiles without
+error into two nodes sharing one uuid — not a closed flow -/
+theorem needs_no_given_ids :
+    ¬ NoGivenIds badEvents ∧
+    ∃ out, Compile.compile [] exTests badEvents = .ok out ∧ ¬ Closed (Compile.renderOut out) := by
+  refine ⟨by decide +kernel, ?_⟩
+  have h : outcome [] exTests badEvents = some false := by decide +kernel
+  obtain ⟨out, ho, hc⟩ := outcome_some h
+  exact ⟨out, ho, fun hcl => by have := hc.mp hcl; cases this⟩
+
+/-! ### the statement itself: non-vacuity and negative witnesses -/
 
 def n1 : Node :=
   { uuid := "n1".toList, actions := [{ uuid := "a1".toList, obs := "hi".toList }],
